@@ -59,6 +59,7 @@ def check(ctx) -> None:
     ctx.rule("C12.key", "GUARD-DOM: every `return self._X_cache[key]` is dominated by _check_cache(..., key); in _check_cache every path that skips comp(only) has established `only in cache`", floor=4)
     ctx.rule("C12.run", "an execution result is reused only when neither `changed` nor `last result is None`; after (re-)execution the result is stored before the flag is cleared; the suite runner also invalidates the test case's cache", floor=4)
     ctx.rule("C12.set-changed", "MUST-PASS: every writer of a chromosome's test case / test list reaches `<chromosome>.changed = True` on every path to a normal exit", floor=7)
+    ctx.rule("C12.alias", "OWNERSHIP: a variation operator installs test case chromosomes of another suite only as clones (no object shared between two suites' test lists)", floor=1)
     ctx.rule("C12.must-use", "MUST-USE: the boolean result of an operation that reports 'something changed' is never discarded in the variation operators", floor=8)
     ctx.rule("C12.clearers", "WHO-MAY: `<x>.changed = False` occurs only in the enumerated functions", floor=3)
 
@@ -279,6 +280,47 @@ def check(ctx) -> None:
             p = c.path(nxt, [c.exit], avoid_nodes=local_sets, labels_excluded=("exc",))
             ctx.paths += 1
             ctx.check("C12.set-changed", w.stmt, p is None, f"{qn}: the chromosome's tests are replaced without recording the change", what=f"{qn}: replacement recorded")
+
+    # ------------------------------------------------------------------ C12.alias
+    # a variation operator never installs test case chromosomes that another suite still owns:
+    # a shared TestCaseChromosome mutated through one suite leaves the other suite's flag down
+    n_alias = 0
+    for mname in (CROSS, MUT):
+        mod = repo.module(mname)
+        for qn, fn in mod.functions.items():
+            for n in own_nodes(fn):
+                recv = None
+                value = None
+                if isinstance(n, ast.Assign) and isinstance(n.targets[0], ast.Attribute) and n.targets[0].attr == "test_case_chromosomes":
+                    recv, value = norm(n.targets[0].value), n.value
+                elif isinstance(n, ast.Call) and last_attr(n) in ("add_test_case_chromosome", "add_test_case_chromosomes", "set_test_case_chromosome") and isinstance(n.func, ast.Attribute) and n.args:
+                    recv, value = norm(n.func.value), n.args[-1]
+                if recv is None:
+                    continue
+                foreign = []
+                for x in ast.walk(value):
+                    if isinstance(x, ast.Attribute) and x.attr == "test_case_chromosomes" and norm(x.value) != recv:
+                        # accepted: iterable of a comprehension whose element clones the loop variable
+                        ok_ = False
+                        a = parent(x)
+                        while a is not None and a is not n:
+                            if isinstance(a, ast.comprehension):
+                                comp = parent(a)
+                                if isinstance(comp, (ast.ListComp, ast.GeneratorExp)) and isinstance(comp.elt, ast.Call) and last_attr(comp.elt) == "clone" and norm(comp.elt.func.value) == norm(a.target):
+                                    ok_ = True
+                                break
+                            a = parent(a)
+                        if not ok_:
+                            foreign.append(x)
+                st = n
+                while not isinstance(st, ast.stmt):
+                    st = parent(st)
+                if any(isinstance(x, ast.Attribute) and x.attr == "test_case_chromosomes" and norm(x.value) != recv for x in ast.walk(value)):
+                    n_alias += 1
+                    ctx.analysed(fn)
+                    ctx.check("C12.alias", st, not foreign, f"{qn}: test case chromosomes of `{norm(foreign[0].value) if foreign else ''}` are installed in `{recv}` without cloning: both suites share the objects, and a mutation through one suite marks only that suite as changed - the other keeps serving cached values for tests that have changed", what=f"{qn}: foreign test case chromosomes cloned before installation")
+    if n_alias == 0:
+        raise AnalysisError("C12.alias: no cross-suite installation site found in the variation operators")
 
     # ------------------------------------------------------------------ C12.must-use
     tf_cls = repo.cls(TF, "TestFactory")
